@@ -47,7 +47,9 @@ type COp struct {
 }
 
 type Round struct {
-	Gets []WOp `json:"gets"` // on the private cache of this round (Cache is ignored)
+	Gets    []WOp `json:"gets"`              // on the private cache of this round (Cache is ignored)
+	Keep    bool  `json:"keep,omitempty"`    // the cache is not released by its goroutine: it lives until quiescence
+	SlowRel int   `json:"slowrel,omitempty"` // > 0: registered through a slowBucket whose Released() takes that many scheduler yields
 }
 
 type ConcCase struct {
@@ -60,7 +62,7 @@ type ConcCase struct {
 }
 
 var concKinds = []string{kGet, kGet, kGet, kGet, kGet, kGetE, kGetE, kErr, kErr, kPanic, kEPanic}
-var cleanerKinds = []string{"yield", "yield", kPass, kPass, kPass, kCleanup, kCleanup, kRotate, kRotate, kCleanEmpty, kRelBuckets, kGC, kGC}
+var cleanerKinds = []string{"yield", "yield", kPass, kPass, kPass, kCleanup, kCleanup, kRotate, kRotate, kCleanEmpty, kRelBuckets, kRelBuckets, kRelBuckets, kGC, kGC, kGC}
 
 func genWOp(t *rapid.T, caches, keys int, limit uint64) WOp {
 	op := WOp{Kind: rapid.SampledFrom(concKinds).Draw(t, "kind")}
@@ -96,13 +98,18 @@ func genConc(t *rapid.T) ConcCase {
 		}
 		return op
 	}), minOps, 80).Draw(t, "cleaner")
-	nc := rapid.IntRange(0, 2).Draw(t, "churners")
+	nc := rapid.IntRange(0, 3).Draw(t, "churners")
 	for i := 0; i < nc; i++ {
 		c.Churn = append(c.Churn, rapid.SliceOfN(rapid.Custom(func(t *rapid.T) Round {
-			return Round{Gets: rapid.SliceOfN(rapid.Custom(func(t *rapid.T) WOp {
+			r := Round{Gets: rapid.SliceOfN(rapid.Custom(func(t *rapid.T) WOp {
 				return genWOp(t, 1, 3, c.Limit)
-			}), 0, 5).Draw(t, "gets")}
-		}), 1, 8).Draw(t, "rounds"))
+			}), 0, 4).Draw(t, "gets")}
+			r.Keep = rapid.IntRange(0, 2).Draw(t, "keep") == 2
+			if rapid.Bool().Draw(t, "slowbucket") {
+				r.SlowRel = rapid.IntRange(1, 30).Draw(t, "slowrel")
+			}
+			return r
+		}), 1, 12).Draw(t, "rounds"))
 	}
 	return c
 }
@@ -280,36 +287,69 @@ func (s *conc) cleanerOp(op COp) {
 	}
 }
 
-func (s *conc) quiescent(where string, churned []*cache.Cache[val], sharedReleased bool) error {
+// private is a cache created by a churn goroutine, with what the cleaner holds for it
+type private struct {
+	c        *cache.Cache[val]
+	id       any
+	released bool
+}
+
+// quiescent: nothing runs.  The cleaner manages every non-released cache exactly once (and,
+// right after ReleaseBuckets, nothing else), released caches hold nothing, and the accounted
+// size is the sum of the live entries of the non-released caches.
+func (s *conc) quiescent(where string, privates []*private, sharedReleased, afterRelBuckets bool) error {
 	held := map[any]int{}
 	bs := s.cl.VerifBuckets()
 	for _, b := range bs {
 		held[b]++
 	}
 	sum := uint64(0)
-	for i, c := range s.shared {
-		n := held[any(c)]
-		if !sharedReleased && n == 0 {
-			return evid.Failf("live-cache-dropped", "%s: shared cache %d is not released but the cleaner no longer manages it (%d buckets held)", where, i, len(bs))
-		}
-		if n > 1 {
-			return evid.Failf("bucket-duplicated", "%s: the cleaner holds shared cache %d %d times", where, i, n)
-		}
+	expected := 0
+	one := func(name string, id any, c *cache.Cache[val], released bool) error {
+		n := held[id]
 		live := c.VerifLiveSize()
-		if sharedReleased && live != 0 {
-			return evid.Failf("released-cache-holds-entries", "%s: released cache %d still holds %d bytes", where, i, live)
+		switch {
+		case !released && n == 0:
+			return evid.Failf("live-cache-dropped", "%s: %s is not released but the cleaner no longer manages it (%d buckets held)", where, name, len(bs))
+		case n > 1:
+			return evid.Failf("bucket-duplicated", "%s: the cleaner holds %s %d times", where, name, n)
+		case released && afterRelBuckets && n > 0:
+			return evid.Failf("released-bucket-retained", "%s: %s was released, yet ReleaseBuckets left it in the cleaner", where, name)
+		case released && live != 0:
+			return evid.Failf("released-cache-holds-entries", "%s: released %s still holds %d bytes", where, name, live)
 		}
-		sum += live
+		expected += n
+		if !released {
+			sum += live
+		}
+		return nil
 	}
-	for i, c := range churned {
-		if live := c.VerifLiveSize(); live != 0 {
-			return evid.Failf("released-cache-holds-entries", "%s: released private cache %d still holds %d bytes", where, i, live)
+	for i, c := range s.shared {
+		if err := one(fmt.Sprintf("shared cache %d", i), c, c, sharedReleased); err != nil {
+			return err
 		}
+	}
+	for i, p := range privates {
+		if err := one(fmt.Sprintf("private cache %d", i), p.id, p.c, p.released); err != nil {
+			return err
+		}
+	}
+	if expected != len(bs) {
+		return evid.Failf("bucket-foreign", "%s: the cleaner holds %d buckets, only %d are caches created on it", where, len(bs), expected)
 	}
 	if acc := s.cl.VerifSize(); acc != sum {
 		return evid.Failf("accounting", "%s: the cleaner accounts %d bytes, the live entries of its non-released caches sum to %d", where, acc, sum)
 	}
 	return nil
+}
+
+// yieldingBucket: see slowBucket; here Released() simply takes a few scheduler yields.
+func yieldingBucket(c *cache.Cache[val], n int) *slowBucket {
+	return &slowBucket{c: c, onReleased: func() {
+		for i := 0; i < n && i < 100; i++ {
+			runtime.Gosched()
+		}
+	}}
 }
 
 func runConcBody(c ConcCase) (evid.Result, error) {
@@ -337,7 +377,7 @@ func runConcBody(c ConcCase) (evid.Result, error) {
 			total += len(r.Gets)
 		}
 	}
-	s.outcomes = make([]atomic.Int32, total+len(keys)+8)
+	s.outcomes = make([]atomic.Int32, total+len(keys)+len(c.Churn)*16+8)
 
 	var wg sync.WaitGroup
 	start := make(chan struct{})
@@ -355,26 +395,39 @@ func runConcBody(c ConcCase) (evid.Result, error) {
 			}
 		}()
 	}
-	churned := make([][]*cache.Cache[val], len(c.Churn))
+	churned := make([][]*private, len(c.Churn))
 	for ci, script := range c.Churn {
 		wg.Add(1)
 		go func() {
 			defer wg.Done()
 			<-start
 			for ri, r := range script {
-				pc := cache.NewCache[val](s.cl, newMetrics())
+				mt := newMetrics()
+				p := &private{}
+				if r.SlowRel > 0 {
+					p.c = cache.NewCache[val](nil, mt)
+					b := yieldingBucket(p.c, r.SlowRel)
+					p.id = b
+					s.cl.AddBucket(b)
+				} else {
+					p.c = cache.NewCache[val](s.cl, mt)
+					p.id = p.c
+				}
+				churned[ci] = append(churned[ci], p)
 				tag := 100 + ci*100 + ri
 				for _, op := range r.Gets {
 					if op.Size < 0 {
 						continue
 					}
-					if err := s.lookup(pc, tag, op); err != nil {
+					if err := s.lookup(p.c, tag, op); err != nil {
 						errs[len(c.Workers)+ci] = err
 						return
 					}
 				}
-				pc.Release()
-				churned[ci] = append(churned[ci], pc)
+				if !r.Keep {
+					p.c.Release()
+					p.released = true
+				}
 			}
 		}()
 	}
@@ -394,13 +447,19 @@ func runConcBody(c ConcCase) (evid.Result, error) {
 			return res, err
 		}
 	}
-	var released []*cache.Cache[val]
+	var privates []*private
+	kept := 0
 	for _, l := range churned {
-		released = append(released, l...)
+		privates = append(privates, l...)
+		for _, p := range l {
+			if !p.released {
+				kept++
+			}
+		}
 	}
 	evals := total
 	// quiescence: accounting and management
-	if err := s.quiescent("at quiescence", released, false); err != nil {
+	if err := s.quiescent("at quiescence", privates, false, false); err != nil {
 		return res, err
 	}
 	// a cleaning pass without concurrent lookups brings the accounted size under the limit
@@ -409,7 +468,7 @@ func runConcBody(c ConcCase) (evid.Result, error) {
 	if acc := s.cl.VerifSize(); s.limit > 0 && acc > s.limit {
 		return res, evid.Failf("over-limit-after-cleanup", "after the quiescent cleaning pass the accounted size %d is still above the limit %d", acc, s.limit)
 	}
-	if err := s.quiescent("after the quiescent cleaning pass", released, false); err != nil {
+	if err := s.quiescent("after the quiescent cleaning pass", privates, false, false); err != nil {
 		return res, err
 	}
 	// no key is poisoned: every key can still be looked up and yields a complete value
@@ -423,21 +482,42 @@ func runConcBody(c ConcCase) (evid.Result, error) {
 			return res, err
 		}
 	}
-	if err := s.quiescent("after the final lookups", released, false); err != nil {
+	// the caches that outlived their goroutines are still usable and still cleaned
+	for i, p := range privates {
+		if !p.released {
+			if err := s.lookup(p.c, 5000+i, WOp{Kind: kGet, Key: 9, Size: int(s.limit) + 1}); err != nil {
+				return res, err
+			}
+		}
+	}
+	s.cl.Rotate()
+	s.cleanup()
+	if acc := s.cl.VerifSize(); s.limit > 0 && acc > s.limit {
+		return res, evid.Failf("over-limit-after-cleanup", "after the final lookups and a cleaning pass the accounted size %d is still above the limit %d", acc, s.limit)
+	}
+	// ReleaseBuckets at quiescence: the cleaner manages exactly the non-released caches
+	s.cl.ReleaseBuckets()
+	if err := s.quiescent("after the final lookups and ReleaseBuckets", privates, false, true); err != nil {
 		return res, err
 	}
 	// release everything: the cleaner ends up empty
 	for _, sc := range s.shared {
 		sc.Release()
 	}
+	for _, p := range privates {
+		if !p.released {
+			p.c.Release()
+			p.released = true
+		}
+	}
 	s.cl.ReleaseBuckets()
 	if n := len(s.cl.VerifBuckets()); n != 0 {
 		return res, evid.Failf("released-bucket-retained", "all caches released and ReleaseBuckets called, the cleaner still holds %d buckets", n)
 	}
-	if err := s.quiescent("after releasing everything", released, true); err != nil {
+	if err := s.quiescent("after releasing everything", privates, true, true); err != nil {
 		return res, err
 	}
-	evals += 8 + len(ks)
+	evals += 10 + len(ks) + kept
 
 	res.Evals = evals
 	res.Labels = append(res.Labels, fmt.Sprintf("conc:workers:%d", len(c.Workers)), fmt.Sprintf("conc:churners:%d", len(c.Churn)))
@@ -450,8 +530,11 @@ func runConcBody(c ConcCase) (evid.Result, error) {
 	if s.evictedBytes.Load() > 0 {
 		res.Labels = append(res.Labels, "conc:evicted-during-run")
 	}
-	if len(released) > 0 {
+	if len(privates) > kept {
 		res.Labels = append(res.Labels, "conc:private-caches-released")
+	}
+	if kept > 0 {
+		res.Labels = append(res.Labels, "conc:private-caches-kept")
 	}
 	res.Labels = append(res.Labels, exclusionLabels()...)
 	// NT: somebody was served a value loaded by another lookup, and the cleaner evicted during the run
